@@ -1,7 +1,7 @@
 (* C14 -- The connection layer reassembles messages exactly under arbitrary fragmentation. *)
 From Coq Require Import String Ascii List Bool Arith NArith ZArith.
 From KV Require Import Lib.Str Lib.ByteSeq Gen.CxxConn Model.Conn Spec.StreamParse
-                       Proofs.ByteSeqProofs Proofs.ConnProofs Proofs.StreamParseProofs Proofs.ConnOversize.
+                       Proofs.ByteSeqProofs Proofs.ConnProofs Proofs.StreamParseProofs Proofs.ConnSafe Proofs.ConnOversize.
 (* not used by the statements below: Model.Proto is extracted into build/kmodel together with Model.Conn, so its .vo has to be
    rebuilt with this closure whenever Gen/CxxConn.v is regenerated *)
 From KV Require Model.Proto.
@@ -51,18 +51,36 @@ Theorem C14_raw : forall chunks,
 Proof. intros chunks. split; [apply raw_exact | apply raw_bytes]. Qed.
 Print Assumptions C14_raw.
 
-(* Without "header + payload < 2^32" the statement is false of the code: the 8 header bytes of a message with 2^32 - 8 payload
-   bytes make OnDataReceived recurse without end (for every fuel the model is still running, reporting empty messages). *)
-Theorem C14_reassembly_oversize_refuted :
-  exists p0 p1 hdr,
-    len hdr = size_of_header /\ nth 0 hdr zero_byte = p0 /\ nth 1 hdr zero_byte = p1 /\
-    payload_size hdr = 2 ^ 32 - size_of_header /\
-    forall fuel, exists ds, on_data p0 p1 fuel init hdr = Fail OutOfFuel ds.
+(* SAFETY ON EVERY INPUT (the repaired code): arbitrary bytes -- no well-formedness whatsoever --, arbitrary preamble,
+   arbitrary chunking (every chunk length + 8 <= 2^32): feeding the chunks from the initial state always ends normally, i.e.
+   never reads outside the received data (OutOfBounds), never fails an assert (AssertFailed) and every call of OnDataReceived
+   terminates within fuel 2*count+2 (OutOfFuel is not returned); the state reached satisfies the invariant [inv]. *)
+Theorem C14_safe : forall p0 p1 chunks,
+  forallb chunk_ok chunks = true ->
+  exists st ds, feed p0 p1 init chunks = Done st ds /\ inv p0 p1 st.
+Proof. exact safe_on_every_input. Qed.
+Print Assumptions C14_safe.
+
+Corollary C14_never_fails : forall p0 p1 chunks e ds,
+  forallb chunk_ok chunks = true -> feed p0 p1 init chunks <> Fail e ds.
 Proof.
-  exists os_p0, os_p1, oversize_header.
-  destruct oversize_header_fields as [H1 H2]. repeat split; auto. exact oversize_diverges.
+  intros p0 p1 chunks e ds Hc H. destruct (safe_on_every_input p0 p1 chunks Hc) as (st & ds' & E & _). congruence.
 Qed.
-Print Assumptions C14_reassembly_oversize_refuted.
+Print Assumptions C14_never_fails.
+
+(* The inputs of the repaired defects K-C14-1 / K-C14-2: a header announcing 2^32 - 8 payload bytes is discarded (also when
+   split over chunks), a message behind it is delivered; the FF-garbage that caused the 4 GiB read is rescanned. *)
+Example C14_oversize_header_discarded :
+  oversize (payload_size oversize_header) = true /\
+  feed os_p0 os_p1 init [oversize_header] = Done init [] /\
+  feed os_p0 os_p1 init [oversize_header ++ os_msg] = Done init [os_msg] /\
+  feed os_p0 os_p1 init [firstn 3 oversize_header; skipn 3 oversize_header ++ os_msg] = Done init [os_msg] /\
+  feed ff ff init [[ff; ff]; [ff; ff; ff; ff; ff; ff; Ascii.zero]] = Done (mkSt [ff; ff; ff; ff; ff; ff; Ascii.zero] 0) [].
+Proof.
+  destruct oversize_header_fields as (_ & _ & H). destruct oversize_header_discarded as (A & B & C).
+  repeat split; auto; exact oversize_garbage_discarded.
+Qed.
+Print Assumptions C14_oversize_header_discarded.
 
 (* ---- non-vacuity: a stream with fillers, an empty payload, payloads made of preamble look-alikes, equal preamble bytes ---- *)
 Definition ex_b (n : N) : byte := ascii_of_N n.
